@@ -485,3 +485,81 @@ func VerifC12FrontMatterLong() {
 	verifCover("C12/frontmatter-long/end")
 }
 
+
+// c12FaultyFile: the temporary file of an in-place run as the printer sees it: it takes `room` bytes and then fails
+// (disk full, quota, I/O error).
+type c12FaultyFile struct {
+	room    int
+	written *int
+}
+
+func (f c12FaultyFile) Write(p []byte) (int, error) {
+	if *f.written+len(p) > f.room {
+		n := f.room - *f.written
+		if n < 0 {
+			n = 0
+		}
+		*f.written += n
+		return n, errors.New("write: no space left on device")
+	}
+	*f.written += len(p)
+	return len(p), nil
+}
+
+// VerifC12PrinterReportsWriteFaults: writing the results to the temporary file goes through the printer and its
+// buffered writer. When the file takes fewer bytes than the results have - none at all, all but the last, anything in
+// between - PrintResults must return an error (then -i leaves the original alone): the fault may only show up in the
+// final flush, for results smaller than the buffer. 1-3 documents, YAML / props / csv / xml output.
+func VerifC12PrinterReportsWriteFaults() {
+	n := 1 + verifChoice("documents", 3)
+	format := []string{"yaml", "props", "csv", "xml", "json-stub"}[verifChoice("format", 4)]
+	mkPrinter := func(w io.Writer) Printer {
+		f, err := FormatFromString(format)
+		if err != nil {
+			verifFail("C12/format-lookup")
+		}
+		return NewPrinter(f.EncoderFactory(), NewSinglePrinterWriter(w))
+	}
+	docs := func() []*CandidateNode {
+		var out []*CandidateNode
+		for i := 0; i < n; i++ {
+			var d *CandidateNode
+			if format == "csv" {
+				d = vDocAt(vSeq(vSeq(vStr("a"), vInt(verifItoa(int64(i))))), uint(i), 0, "f.yml")
+			} else {
+				d = vDocAt(vMap(vStr("a"), vInt(verifItoa(int64(i))), vStr("b"), vStr("text")), uint(i), 0, "f.yml")
+			}
+			out = append(out, d)
+		}
+		return out
+	}
+	// how many bytes the results have
+	total := 0
+	okWriter := c12FaultyFile{room: 1 << 30, written: &total}
+	p := mkPrinter(okWriter)
+	for _, d := range docs() {
+		if err := p.PrintResults(d.AsList()); err != nil {
+			verifFail("C12/print-error-without-a-fault")
+		}
+	}
+	if total == 0 {
+		verifFail("C12/nothing-printed")
+	}
+	room := 0
+	switch verifChoice("room", 3) {
+	case 1:
+		room = total - 1
+	case 2:
+		room = total / 2
+	}
+	written := 0
+	p = mkPrinter(c12FaultyFile{room: room, written: &written})
+	var firstErr error
+	for _, d := range docs() {
+		if err := p.PrintResults(d.AsList()); err != nil && firstErr == nil {
+			firstErr = err
+		}
+	}
+	verifAssert(firstErr != nil, "C12/write-fault-on-the-temporary-file-not-reported format="+format)
+	verifCover("C12/write-faults/end")
+}
